@@ -98,7 +98,7 @@ class MirIndex:
         self.closure_by_span = {}; self.simple_consts = {}
         self.coro = {}
         self._src = {}
-        self._impl_cache = {}; self._impl_ref = set()
+        self._impl_cache = {}; self._impl_ref = set(); self._impl_selfraw = {}
 
     def add(self, path, crate=None):
         base = len(self.lines)
@@ -221,6 +221,17 @@ class MirIndex:
             self._src[file] = open(p).read().split('\n') if os.path.exists(p) else []
         return self._src[file]
 
+    def impl_generic_names(self, name):
+        """names of the generic parameters as they appear in the Self type of the impl block: `impl<A, B> Tr for Ty<A, B>` -> ['A', 'B']"""
+        self.impl_info(name)
+        m = re.search(r'<impl at ([^:>]+):(\d+):(\d+): (\d+):(\d+)>', name)
+        if not m: return []
+        raw = self._impl_selfraw.get(m.group(0))
+        if not raw: return []
+        mm = re.search(r'<(.*)>\s*$', raw.strip())
+        if not mm: return []
+        return [t.strip().split(':')[0].strip() for t in split_top(mm.group(1)) if not t.strip().startswith("'")]
+
     def impl_self_is_ref(self, name):
         """true if the impl block is `impl Trait for &T` (self type is a reference)"""
         self.impl_info(name)
@@ -241,8 +252,8 @@ class MirIndex:
                 trait = text[c1 - 1:c2 - 1]
                 ty = None
                 for k in range(l1, min(l1 + 15, len(lines))):
-                    mm = re.match(r'\s*(?:pub(?:\([^)]*\))? )?(?:struct|enum|union) (\w+)', lines[k])
-                    if mm: ty = mm.group(1); break
+                    mm = re.match(r'\s*(?:pub(?:\([^)]*\))? )?(?:struct|enum|union) (\w+)\s*(<[^{(;]*>)?', lines[k])
+                    if mm: ty = mm.group(1); self._impl_selfraw[key] = ty + (mm.group(2) or ''); break
                 res = (trait.split('::')[-1], ty)
             else:
                 hdr = ' '.join(lines[l1 - 1:l2])[c1 - 1:] if l1 != l2 else text[c1 - 1:c2 - 1]
@@ -261,9 +272,9 @@ class MirIndex:
                     body = body.split(' where ')[0].strip()
                     if ' for ' in body:
                         tr, ty = body.split(' for ', 1)
-                        res = (last_seg(tr), last_seg(ty))
+                        res = (last_seg(tr), last_seg(ty)); self._impl_selfraw[key] = _strip_ref(strip_lifetimes(ty))
                         if ty.strip().startswith('&'): self._impl_ref.add(key)
-                    else: res = (None, last_seg(body))
+                    else: res = (None, last_seg(body)); self._impl_selfraw[key] = _strip_ref(strip_lifetimes(body))
         self._impl_cache[key] = res
         return res
 
